@@ -24,3 +24,75 @@ def asm(w):
 def asm_seq(w):
     a = Assembler()
     return " || ".join(_one(a, bytes.fromhex(t).decode()) for t in w)
+
+
+# ---- C09: disassemble -> text -> assemble -> disassemble -------------------------------------------
+from binja_test_mocks.tokens import TAddr, TInt, asm_str  # noqa: E402
+from binja_test_mocks.mock_llil import MockLowLevelILFunction  # noqa: E402
+from sc62015.arch import SC62015  # noqa: E402
+from sc62015.pysc62015.instr import decode, OPCODES  # noqa: E402
+from harness.py.il_cmd import il_text  # noqa: E402
+
+ARCH = SC62015()
+
+
+def asm_text(toks):
+    """rendered tokens as assembler source: numbers as 0x literals (sign kept), everything else verbatim"""
+    out = []
+    for t in toks:
+        s = str(t)
+        if isinstance(t, TInt):
+            out.append((s[0] + "0x" + s[1:]) if s[:1] in "+-" else "0x" + s)
+        elif isinstance(t, TAddr):
+            out.append("0x" + s)
+        else:
+            out.append(s)
+    return "".join(out)
+
+
+def _dis(bs, addr):
+    ins = decode(bs, addr, OPCODES)
+    if ins is None:
+        return None
+    il = MockLowLevelILFunction()
+    try:
+        ins.lift(il, addr)
+        ilt = il_text(il.ils)
+    except Exception as e:  # noqa: BLE001
+        ilt = "LERR " + type(e).__name__
+    return ins, asm_str(ins.render()), ilt
+
+
+def reasm(w):
+    """reasm <hex> <addr>: only for byte strings get_instruction_text accepts"""
+    bs = bytes.fromhex(w[0])
+    addr = int(w[1])
+    try:
+        acc = ARCH.get_instruction_text(bs, addr)
+    except Exception as e:  # noqa: BLE001
+        return f"NOTEXT {type(e).__name__}"
+    if acc is None:
+        return "NOTEXT"
+    ins, text, ilt = _dis(bs, addr)
+    src = asm_text(ins.render())
+    a = Assembler()
+    try:
+        b = a.assemble(f".ORG {addr:#x}\n    {src}\n")
+        out = bytes(b.segments[0].data) if len(b.segments) else b""
+    except Exception as e:  # noqa: BLE001
+        return f"ASMERR {type(e).__name__}:{str(e).splitlines()[0][:100].replace(' ', '_')} | text={text.replace(' ', '_')} | len={ins.length()}"
+    try:
+        d2 = _dis(out, addr)
+    except Exception as e:  # noqa: BLE001
+        d2 = None
+    if d2 is None:
+        return f"REDIS-FAIL bytes={out.hex()} | text={text.replace(' ', '_')}"
+    ins2, text2, ilt2 = d2
+    try:
+        b3 = Assembler().assemble(f".ORG {addr:#x}\n    {asm_text(ins2.render())}\n")
+        out3 = bytes(b3.segments[0].data) if len(b3.segments) else b""
+    except Exception as e:  # noqa: BLE001
+        out3 = None
+    return (f"OK orig={bs[:ins.length()].hex()} new={out.hex()} same_text={int(text == text2)} same_il={int(ilt == ilt2)} "
+            f"stable={int(out3 == out)} same_len={int(len(out) == ins.length())} consumed={int(ins2.length() == len(out))} "
+            f"| text={text.replace(' ', '_')} | text2={text2.replace(' ', '_')}")
